@@ -120,6 +120,10 @@ def run(ctx):
     ent = fsm.in_edges(S)
     ok = len(ent) == 1 and q.has(ent[0], '1 == ' + I + 'setup.request')
     ctx.ob('C14.clear-halt-fields', 'StandardRequestHandler.clear-feature.entry', ok, ent[0].loc if ent else None, 'the clear is emitted only while handling CLEAR_FEATURE (request 1)')
+    ctx.ob('C14.clear-on-completion', 'StandardRequestHandler.clear_endpoint_halt.enable', (I + 'handshakes_in.ack', True) in q.atoms(en[0]), en[0].loc,
+           'the toggle of the named endpoint may be reset only when the request completes, i.e. on the host\'s ACK of the status stage '
+           '(handshakes_in.ack); the strobe is raised under %s -- a CLEAR_FEATURE whose status stage is answered but never acknowledged '
+           'would still reset the toggle' % sorted(q.atoms(en[0])))
     ga = {x for x, p in q.atoms(en[0]) if p}
     own = [x for x in ga if x not in (I + 'handshakes_in.ack', '0 == ' + I + 'setup.type')]
     ok = any(all((I + 'status_requested', True) in q.atoms(a) for a in h.drivers(x, exact=True) if q.is_one(a.rhs)) and h.drivers(x, exact=True) for x in own)
